@@ -250,6 +250,27 @@ Theorem C05_afkak_gzip_nested_roundtrip : forall orc,
 Proof. exact gzip_nested_roundtrip. Qed.
 Print Assumptions C05_afkak_gzip_nested_roundtrip.
 
+(* the producer's path: create_message_set(requests, codec, magic) -> _encode_message_set -> decode gives back exactly
+   the (key, payload) pairs of the requests, in order ([kv] = (key, value) of a message; [flatten_requests] = the
+   pairs of SendRequest.key with each of its messages; [kv_ok] = byte strings or null) *)
+Theorem C05_producer_plain_roundtrip : forall d orc clock reqs magic ws k' off incr mg bs,
+  forallb kv_ok (flatten_requests reqs) = true ->
+  create_message_set orc clock reqs CODEC_NONE magic = Ok ws ->
+  encode_message_set_from clock k' ws off incr mg = Ok bs ->
+  exists ys, dec_set (S d) orc bs = (ys, None) /\ map (fun om => kv (snd om)) ys = flatten_requests reqs.
+Proof. exact producer_plain_roundtrip. Qed.
+Print Assumptions C05_producer_plain_roundtrip.
+
+Theorem C05_producer_gzip_roundtrip : forall d orc clock reqs magic ws k' off incr mg bs,
+  (forall x z, bytes_ok x = true -> gz_enc orc x = Ok z -> gz_dec orc z = Ok x /\ bytes_ok z = true) ->
+  forallb kv_ok (flatten_requests reqs) = true ->
+  create_message_set orc clock reqs CODEC_GZIP magic = Ok ws ->
+  encode_message_set_from clock k' ws off incr mg = Ok bs ->
+  exists ys, dec_set (S (S d)) orc bs = (ys, None) /\ map (fun om => kv (snd om)) ys = flatten_requests reqs
+             /\ Forall (fun om => fst om = if (magic =? 0) then 0 else off) ys.
+Proof. exact producer_gzip_roundtrip. Qed.
+Print Assumptions C05_producer_gzip_roundtrip.
+
 (* ================================================================== 4. outside the supported versions
    afkak supports Produce / Fetch versions 0 and 2 only (kafkacodec.py:559 "we only support 2 versions"); a
    negotiated version >= 2 is sent as 2.  The version-1 layouts are NOT decoded: recorded here so that the boundary
